@@ -193,6 +193,22 @@ def check_layout_laws(ck, ctx, rule="O-line"):
                     ok, detail = False, f"the exemplars of the class are treated differently: {e}"
                 ck.ob(rule, key, ok, "the assembled statement must be handed over whole; " + detail if not ok else "handed over whole",
                       "Parser.process_line (evaluated abstractly)", witness=None if ok else f"{where}: {_s(line)!r}")
+        # -- a statement without ';' closed by the first line of the next statement
+        if shape == "balanced":
+            for cname in ("open", "one-line", "one-line-no-semicolon", "set;"):
+                for more in (True, False):
+                    n += 1
+                    key = f"a statement without ';' followed by the first line of the next one (`{cname}`{'' if more else ', last line'})"
+                    try:
+                        parsed, nxt = lm.step(s, CODE[cname], more)
+                        ok = len(parsed) >= 1 and same(ws(parsed[0]), ws(pending))
+                        detail = f"handed {_s(parsed)!r}, pending was {_s(pending)!r}"
+                    except (PyRaise, Raised) as e:
+                        ok, detail = False, f"raises {e}"
+                    except NonUniform as e:
+                        ok, detail = False, f"the exemplars of the class are treated differently: {e}"
+                    ck.ob(rule, key, ok, "the pending statement must be handed over whole (it has no ';' to remove)" + ("" if ok else "; " + detail),
+                          "Parser.process_line (evaluated abstractly)", witness=None if ok else f"{where}: {_s(CODE[cname])!r}")
         # -- final lines
         if shape in ("open", "balanced"):
             for cname, line in FINAL.items():
@@ -345,6 +361,17 @@ STATEMENTS = collections.OrderedDict([
     ("SET with =", (["set;"], False)),
     ("SET without =", (["set-to;"], False)),
     ("blank line", (["blank"], False)),
+    # unsupported statements over several lines: whatever reaches the grammar is text of that statement only, no entity appears
+    ("query over three lines", (["unsup-open", "unsup-cont", "unsup-close;"], None)),
+    ("skipped statement over two lines", (["skipped-open", "unsup-close;"], None)),
+    ("UPDATE with its SET clause on a line of its own", (["update-open", "set;"], None)),
+])
+UNSUPPORTED = collections.OrderedDict([
+    ("unsup-open", w("SELECT a , ", "create view v as", "MERGE INTO t USING s ON  ( a = b ) ", "with q as  ( ")),
+    ("unsup-cont", w(" b", "select x , y", "WHEN MATCHED THEN", " select 1 ) ")),
+    ("unsup-close;", w("FROM t ;", "from u where z = 1 ;", "UPDATE_ALL ;", "select * from q ;")),
+    ("skipped-open", w("INSERT INTO t VALUES  ( 1 , ", "GRANT SELECT", "delete from t", "USE")),
+    ("update-open", w("UPDATE t", "update s.u", "Update x_1")),
 ])
 
 
@@ -368,24 +395,38 @@ def check_statement_boundaries(ck, ctx, rule="O-split"):
     for name, (classes, _h) in STATEMENTS.items():
         st = s0
         for c in classes:
-            _p, st = lm.step(st, CODE[c], True)
+            _p, st = lm.step(st, CODE[c] if c in CODE else UNSUPPORTED[c], True)
         starts.append((f"after a {name}", st))
     n = 0
+    tally = collections.OrderedDict()
     for sname, st in starts:
         for name, (classes, hands) in STATEMENTS.items():
             for last in (False, True):
                 n += 1
                 key = f"{name} {sname}" + (" (ending the script)" if last else "")
                 cur, handed, text = st, [], None
+                LINES = dict(CODE)
+                LINES.update(UNSUPPORTED)
                 try:
                     for i, c in enumerate(classes):
                         more = not (last and i == len(classes) - 1)
-                        p, cur = lm.step(cur, CODE[c], more)
+                        p, cur = lm.step(cur, LINES[c], more)
                         handed += list(p)
-                        text = cat(text, strip(CODE[c]))
-                    want = [ws(chop(text))] if hands else []
-                    ok = same(ws(handed), want)
-                    detail = f"handed {_s(handed)!r}, expected {_s(want)!r}"
+                        text = cat(text, strip(LINES[c]))
+                    if hands is None:
+                        # unsupported: every text handed over is a run of this statement's own words
+                        ok, detail = True, ""
+                        for h in handed:
+                            for i6 in range(6):
+                                hw = (h.ex[i6] if isinstance(h, W) else h).split()
+                                tw = (text.ex[i6] if isinstance(text, W) else text).replace(";", " ; ").split()
+                                hw = " ".join(hw).replace(";", " ; ").split()
+                                if not any(tw[k:k + len(hw)] == hw for k in range(len(tw) - len(hw) + 1)):
+                                    ok, detail = False, f"handed {_s(h)!r}, which is not a run of words of the statement {_s(text)!r}"
+                    else:
+                        want = [ws(chop(text))] if hands else []
+                        ok = same(ws(handed), want)
+                        detail = f"handed {_s(handed)!r}, expected {_s(want)!r}"
                     if ok and not last:
                         a, b = flush(s0), flush(cur)
                         ok = all(same(a[r], b[r]) for r in regs)
@@ -397,12 +438,23 @@ def check_statement_boundaries(ck, ctx, rule="O-split"):
                         extra = 1 if name.startswith("SET") else 0
                         ok = isinstance(res, list) and isinstance(base, list) and len(res) == len(base) + extra
                         detail = f"result of the script {_s(res)!r}, before the statement {_s(base)!r}"
+                    if ok and not last and hands is None:
+                        res, base = lm.finish(flush(cur)), lm.finish(flush(st))
+                        ok = isinstance(res, list) and isinstance(base, list) and len(res) == len(base)
+                        detail = f"an entity appears although the statement is not supported: {_s(res)!r} (before: {_s(base)!r})"
                 except (PyRaise, Raised) as e:
                     ok, detail = False, f"raises {e}"
                 except NonUniform as e:
                     ok, detail = False, f"the exemplars are treated differently: {e}"
-                ck.ob(rule, key, ok, "a statement hands over exactly its own text (or nothing, for skipped / SET / blank lines) and leaves the "
-                      "line machine as at the start of the script" + ("" if ok else "; " + detail), "Parser.process_line (evaluated abstractly)")
+                tally.setdefault(name, [0, []])
+                tally[name][0] += 1
+                if not ok:
+                    tally[name][1].append((key, detail))
+    for name, (cnt, fails) in tally.items():
+        ck.ob(rule, name, not fails, "a statement hands over exactly its own text (or nothing, for skipped / SET / blank lines; for an unsupported "
+              "statement only runs of its own words), adds no entity it does not declare, and leaves the line machine as at the start of the "
+              f"script - from the start of the script and after every kind of statement, also as last statement ({cnt} instances)" +
+              ("" if not fails else f"; fails in {len(fails)}: {fails[0][0]}: {fails[0][1]}"), "Parser.process_line (evaluated abstractly)")
     ck.count("statement_boundary_instances", n)
 
 
@@ -557,3 +609,74 @@ def check_reset_before_parse(ck, ctx, key, why, rule="T-DOM"):
         raise AnalysisError(f"{rule}: only {n} statements were handed to the grammar by the explored lines (anchor vanished?)")
     ck.ob(rule, key, bad is None, why + ("" if bad is None else "; " + bad), "Parser.process_line (evaluated abstractly, reset not intercepted)")
     ck.count("parse_calls_checked_for_reset", n)
+
+
+# ---- the line pre-processing never raises (C16) ---------------------------------------------------------------------
+ODD = collections.OrderedDict([
+    ("SET with one word", w("SET x", "set a;", "SET ;", "Set =")),
+    ("SET with two words", w("SET x y", "set a =", "SET = 1;", "Set x ;")),
+    ("SET with many words", w("SET a = b = c ;", "set x to y z ;", "SET a b c d e", "Set  =  =  = ;")),
+    ("punctuation only", w(";", " ) ", " ( ", " , ")),
+    ("punctuation runs", w(" )  ;", " (  ;", ";;", " ,  , ")),
+    ("lone quote", w("'", "\"", "a 'b", "x \" y")),
+    ("quote and comment marker", w("'--", "-- '", "'/*", "*/ '")),
+    ("closing marker first", w("*/", "*/ x", "*/ /*", "*/ --")),
+    ("markers only", w("/*", "--", "#", "/**/")),
+    ("nested markers", w("/* */ */", "/* /* */", "-- /* -- */", "/* -- */ --")),
+    ("statement word only", w("CREATE", "ALTER", "DROP", "GO;")),
+    ("statement word and semicolon", w("CREATE ;", "ALTER ;", "DROP ;", "USE ;")),
+    ("equals signs", w("=", "a=", "=b", "a==b")),
+    ("only blanks", w(" ", "   ", "\t", "  ")),
+])
+ODD_SCRIPTS = collections.OrderedDict([
+    ("empty script", ""), ("blank script", "   "), ("newline only", "\n"), ("several newlines", "\n\n\n"), ("semicolon only", ";"),
+    ("lone quote", "'"), ("odd number of quotes", "CREATE TABLE t (a varchar DEFAULT 'x);\nCREATE TABLE u (b int);"),
+    ("escaped quote and odd quotes", "CREATE TABLE t (a varchar DEFAULT 'it\\'s);\n"),
+    ("input.regex without =", 'CREATE TABLE t (a int) WITH SERDEPROPERTIES ("input.regex");'),
+    ("input.regex without closing parenthesis", 'CREATE TABLE t (a int) WITH SERDEPROPERTIES ("input.regex" = "(a|b");'),
+    ("input.regex mentioned in a comment", "-- uses input.regex below\nCREATE TABLE t (a int);"),
+    ("input.regex as a single-quoted key", "CREATE TABLE t (a int) WITH SERDEPROPERTIES ('input.regex' = '(a)');"),
+    ("input.regex twice", 'CREATE TABLE t (a int) WITH SERDEPROPERTIES ("input.regex" = "(a)", "input.regex" = "(b)");'),
+    ("carriage returns only", "\r\r"), ("tab only", "\t"), ("comment only", "-- x"), ("open block comment only", "/* x"),
+    ("SET only", "SET"), ("SET and blank", "SET "), ("statement without end", "CREATE TABLE t ("),
+])
+
+
+def check_no_raise(ck, ctx, rule="O-noraise"):
+    """no line, however odd, makes the line pre-processing itself raise (an IndexError / TypeError / ... from splitting and
+    indexing the text is neither `no exception` under silent=True nor a DDLParserError under silent=False)"""
+    lm = LineMachine(ctx)
+    states = reachable_states(lm)
+    n = 0
+    lines = list(ODD.items()) + [(k, v) for k, v in CODE.items()] + list(UNSUPPORTED.items())
+    for cname, line in lines:
+        bad = None
+        for s, path in states:
+            for more in (True, False):
+                n += 1
+                from ..deriv import _project
+                for i in range(6):
+                    # exemplar by exemplar: odd lines need not be handled in lock step
+                    try:
+                        parsed, nxt = lm._step1(_project(copy.deepcopy(s), i), _project(line, i), more)
+                        if not more:
+                            lm._finish1(nxt)
+                        else:
+                            # ... and the line after it (a pending register may only blow up when it is flushed)
+                            p2, n2 = lm._step1(nxt, "", False)
+                            lm._finish1(n2)
+                    except (PyRaise, Raised) as e:
+                        if bad is None:
+                            bad = (f"{e}", f"after {' / '.join(path[-3:]) or 'the start of the script'}: {_project(line, i)!r}" + ("" if more else " (last line)"))
+        ck.ob(rule, f"line class `{cname}`", bad is None, "Parser.process_line / the end of parse_data must not raise" +
+              ("" if bad is None else f"; raises {bad[0]}"), "Parser.process_line (evaluated abstractly)", witness=None if bad is None else bad[1])
+    for sname, text in ODD_SCRIPTS.items():
+        n += 1
+        try:
+            lm.run_script(text)
+            ok, detail = True, ""
+        except (PyRaise, Raised) as e:
+            ok, detail = False, f"raises {e}"
+        ck.ob(rule, f"script: {sname}", ok, "Parser.parse_data must not raise in the pre-processing" + ("" if ok else "; " + detail),
+              "Parser.parse_data (evaluated abstractly)", witness=None if ok else repr(text)[:160])
+    ck.count("no_raise_instances", n)
